@@ -216,12 +216,25 @@ impl Layout {
         let mut labels: Vec<(String, u32)> = vec![];
         let mut fail = false;
         let mut data_end = self.ram_start;
+        let name_salt = trace.iter().fold(5usize, |h, a| h.wrapping_mul(31).wrapping_add(format!("{:?}", a).len()).wrapping_add(match a { Act::I1 => 1, Act::I2 => 2, Act::SegC => 3, Act::SegD => 4, Act::SegE => 5, _ => 6 }));
         for (idx, a) in trace.iter().enumerate() {
             let id = idx as i64 + 1;
             let i = s.seg as usize;
             let at = s.pc[i];
             // every item carries a fresh label, mixed-case
-            let lname = if idx % 2 == 0 { format!("L{}x", idx) } else { format!("l{}X", idx) };
+            // (every third one, rotating with the trace, is a name that looks like something else:
+            // a part-definition constant, a register, a pointer, a function, a directive)
+            let lname = if (name_salt + idx) % 3 == 0 {
+                const LOOKALIKES: [&str; 28] = [
+                    "ramend", "FlashEnd", "sram_start", "SRAM_SIZE", "e2end", "eepromend", "ioend", "xramend", "r2_done", "zero_l", "low_l", "page_l", "exp2_l", "main", "reset", "loop",
+                    "end", "start", "data", "byte_l", "org_l", "macro_l", "x_", "y2", "z3", "r32", "r100", "pc_",
+                ];
+                LOOKALIKES[(name_salt / 3 + idx) % LOOKALIKES.len()].to_string()
+            } else if idx % 2 == 0 {
+                format!("L{}x", idx)
+            } else {
+                format!("l{}X", idx)
+            };
             let mut item: Option<(String, Vec<u8>)> = None; // (text, bytes)
             let w2b = |w: Vec<u16>| isa::words_to_bytes(&w);
             match a {
